@@ -313,7 +313,7 @@ class Observation:
             self.entry_ids = ids
             for a in range(len(ids)):
                 for b in range(a + 1, min(len(ids), a + 6)):
-                    if ids[a] == ids[b] and self.entries[a] != self.entries[b]:
+                    if ids[a] == ids[b] and tuple(self.entries[a]) != tuple(self.entries[b]):
                         self.problem('entries.id:unique', 'two different directives share one id')
         else:
             e = names.index('entry') if 'entry' in names else None
@@ -531,7 +531,7 @@ class Recorder:
         selftest = None if self.selftested else self.selftest_line()
         self.f.close()
         res = ctx.tlc('Trace_Ledger', 'Trace_Ledger.cfg', leg='C2S', workers=1, env={'TRACE_FILE': self.path},
-                      timeout=ctx.pick(900, 3600), jvm=('-Xss64m', '-Xmx6g'))
+                      timeout=ctx.pick(900, 3600), jvm=('-Xss64m', '-Xmx4g'))
         rejected = [p for p in res.printed if isinstance(p, dict) and p.get('verdict') == 'rejected']
         skipped = [p for p in res.printed if isinstance(p, dict) and p.get('verdict') == 'skipped']
         if selftest is not None:
@@ -675,6 +675,12 @@ class S2C:
                     self.rec.add(es, opts, 'gen-reloaded')
 
 
+def tlc(ctx, module, cfg, **kw):
+    """TLC with a 4 GB heap bound: the machine is shared, and an unbounded parallel-GC heap invites the OOM killer"""
+    kw.setdefault('jvm', ('-Xmx4g',))
+    return ctx.tlc(module, cfg, **kw)
+
+
 def run(ctx):
     ctx.rule = ('one case = one ledger; evaluations = projected cells compared (every modelled column of every row of the '
                 'ten tables + every metadata lookup per key); distinct = distinct ledgers (hash of the abstract ledger); '
@@ -697,12 +703,12 @@ def run(ctx):
         for cfg, kw in [('MC_Ledger.cfg', {})] + ([] if ctx.quick else [('MC_Ledger4.cfg', {})]) + [
                         ('MC_Ledger_cov.cfg', dict(coverage=True, workers=4, must_cover=(
                             'Build', 'Start', 'NextEntryE', 'NextEntryP', 'NextPosting', 'NextTyped', 'NextDirectory', 'NextCommodity', 'Finish')))]:
-            res = ctx.tlc('MC_Ledger', cfg, leg='MC', **kw)
+            res = tlc(ctx, 'MC_Ledger', cfg, leg='MC', **kw)
             if res.violated:
                 ctx.violation('spec:' + ','.join(res.violated), 'TLC: the mechanism does not yield the declarative rows',
                               {'behaviour': res.behaviour[:3000]}, 'MC')
-        ctx.tlc('MC_Ledger', 'MC_Ledger_skipfirst.cfg', leg='MC-nonvacuity', expect_violation='MechEqDecl', workers=2)
-        ctx.tlc('MC_Ledger', 'MC_Ledger_rowid.cfg', leg='MC-nonvacuity', expect_violation='RowidInv', workers=2)
+        tlc(ctx, 'MC_Ledger', 'MC_Ledger_skipfirst.cfg', leg='MC-nonvacuity', expect_violation='MechEqDecl', workers=2)
+        tlc(ctx, 'MC_Ledger', 'MC_Ledger_rowid.cfg', leg='MC-nonvacuity', expect_violation='RowidInv', workers=2)
     rec = Recorder(ctx, ctx.path('ledger_trace.ndjson'))
     # ---- S2C
     if not only or 'S2C' in only:
@@ -719,7 +725,7 @@ def run(ctx):
                                                    env={'GEN_PART': -1})))
         try:
             for cfg, kw in runs:
-                res = ctx.tlc('Gen_Ledger', cfg, leg='GEN', **kw)
+                res = tlc(ctx, 'Gen_Ledger', cfg, leg='GEN', **kw)
                 s2c.batch(res.printed)
                 del res
                 ctx.log('S2C %s: %d ledgers so far, %d cells, %d mismatching' % (cfg, stats['n'], stats['cells'], stats['bad']))
